@@ -143,6 +143,7 @@ pub fn spec(id: &str) -> Option<Spec> {
             rule: "grid of 16 queue sizes x {modern, legacy} x 8 flag combinations x 5 transport answers (free, in use, max=SIZE, max=SIZE/2, max=0) = 1280 cells, each cell visited in every round (run i -> cell i mod 1280; exhaustive for the grid), seed varies DMA placement, queue index and second-allocation failure; distinct = distinct event-log hash; non-trivial = creation succeeded (full layout oracle ran) or failed at the second allocation",
             batches: vec![
                 grid("grid", scen::c06::grid_run, scen::c06::GRID, 3, 200),
+                b("real_transports", scen::c06::real_transports, 3000, 60_000),
                 b("queue_lifecycle", scen::queue::history, 1500, 15_000).only(&["dma-leak", "dma-dealloc-mismatch", "live-queue-memory-freed"]),
             ],
             extras: vec![],
@@ -260,7 +261,12 @@ pub fn spec(id: &str) -> Option<Spec> {
             id: "C08",
             level: "exploration",
             rule: "grid of 11 drivers x 8 transport kinds (model, model-legacy, model-PCI-like, real MMIO modern/legacy, SomeTransport::Mmio, real PCI, SomeTransport::Pci) visited in every round; offered feature set drawn per run (0, all ones, single bits, VERSION_1 only, random 64-bit, random biased to bits 0-40); ordered seam log of construction checked, then a usage script judged by the reference device for the negotiated features; non-trivial = construction and usage succeeded",
-            batches: vec![grid("handshake", scen::c08::run, scen::c08::GRID, 60, 6000)],
+            batches: vec![
+                grid("handshake", scen::c08::run, scen::c08::GRID, 60, 6000),
+                // error paths: every driver against a device that fails its requests, judged here
+                // only for mechanisms used without having been negotiated
+                b("failing_device", scen::c07::hostile_drivers, 6000, 200_000).only(&["config-field-not-negotiated"]),
+            ],
             extras: vec![],
             assumptions: vec!["HypPciTransport (x86-64 hypercalls) cannot run in user space and is excluded", "legacy transports never offer VERSION_1"],
             real: vec!["every driver's new(), Transport::begin_init/finish_init", "MmioTransport, PciTransport, SomeTransport", "VirtQueue"],
